@@ -22,8 +22,8 @@ pub enum Val {
 impl Val {
     pub fn short(&self) -> String {
         let s = format!("{:?}", self);
-        if s.len() > 300 {
-            format!("{}…({} chars)", &s[..300.min(s.len())].chars().collect::<String>(), s.len())
+        if s.chars().count() > 300 {
+            format!("{}…({} chars)", s.chars().take(300).collect::<String>(), s.chars().count())
         } else {
             s
         }
